@@ -170,7 +170,11 @@ func serializeURL(value string) string {
 		case ')':
 			mapped = `\)`
 		default:
-			mapped = string(c)
+			if strings.ContainsRune(nonPrintable, c) { // would make an unquoted url a bad-url
+				mapped = fmt.Sprintf("\\%X ", c)
+			} else {
+				mapped = string(c)
+			}
 		}
 		chuncks.WriteString(mapped)
 	}
